@@ -67,6 +67,27 @@ pub fn session_script(rng: &mut Rng, mut pick_limits: impl FnMut(&mut Rng, bool)
     for k in 0..gos {
         let l = pick_limits(rng, spec.dense);
         s.push(Action::send(l.line(Some(rng))));
+        if rng.chance(1, 8) {
+            // a flood of harmless commands while the search runs, a few dozen yield points
+            // apart, so that some of them land in every kind of window the search has
+            let mut reset = false;
+            for _ in 0..rng.range(20, 60) {
+                s.push(Action::DelaySteps(rng.below(40)));
+                match rng.below(8) {
+                    0 => {
+                        s.push(Action::send("ucinewgame"));
+                        reset = true;
+                    }
+                    1 => s.push(Action::send("setoption name Hash value 1")),
+                    2 => s.push(Action::send(spec.cmd.clone())),
+                    _ => s.push(Action::send("isready")),
+                }
+            }
+            if reset {
+                // put the session position back where the generator thinks it is
+                s.push(Action::send(spec.cmd.clone()));
+            }
+        }
         s.push(Action::WaitBestmove);
         // usually the GUI's next command finds the search thread gone; sometimes it arrives
         // in the instant after the bestmove
